@@ -3,6 +3,7 @@ use crate::engine::Ctx;
 pub mod c01;
 pub mod c02;
 pub mod c03;
+pub mod c04;
 pub mod c05;
 pub mod c06;
 pub mod c07;
@@ -25,6 +26,7 @@ pub fn lookup(id: &str) -> Option<(&'static str, Runner)> {
         "C01" => ("C01", c01::run as Runner),
         "C02" => ("C02", c02::run as Runner),
         "C03" => ("C03", c03::run as Runner),
+        "C04" => ("C04", c04::run as Runner),
         "C05" => ("C05", c05::run as Runner),
         "C06" => ("C06", c06::run as Runner),
         "C07" => ("C07", c07::run as Runner),
